@@ -61,12 +61,14 @@ PRODUCERS = {          # name -> (published file, quick position cap, thorough c
     "mwzip": ("out.zip", 16, 400),
     "mwzip_keep": ("out.zip", 10, 200),
     "download_longname": (LONGNAME, None, None),
+    "download_small": ("out.png", None, None),        # a body that fits one chunk, served with Content-Length
     "render": ("out.pdf", 10, 300),
     "render_odf": ("out.odt", 8, 200),
 }
 
 
 MAY_DECLINE = {"download_longname"}
+SMALL_PAYLOAD = bytes(range(256)) + b"x" * 44
 
 
 def plan(tier, seed):
@@ -95,9 +97,9 @@ def prepare(producer, workdir, old):
                         ("siteinfo.json", b"{}" * 3000), ("images/a.png", os.urandom(30000)), ("metabook.json", b"{}")):
             with open(os.path.join(src, n), "wb") as f:
                 f.write(data)
-    if producer in ("download", "download_longname"):
+    if producer in ("download", "download_longname", "download_small"):
         with open(os.path.join(workdir, "payload.bin"), "wb") as f:
-            f.write(bytes(range(256)) * 100)
+            f.write(SMALL_PAYLOAD if producer == "download_small" else bytes(range(256)) * 100)
     if producer in ("makezip", "mwzip", "mwzip_keep"):
         with open(os.path.join(workdir, "wiki.json"), "w") as f:
             json.dump(WIKI_CASE, f)
@@ -169,7 +171,7 @@ def reader(path):
                 data = f.read()
             if data == b"OLDIMAGE" * 10:
                 return "old", None
-            if data == bytes(range(256)) * 100:
+            if data in (bytes(range(256)) * 100, SMALL_PAYLOAD):
                 return "new", None
             return "bad", "image has %d bytes, neither the old nor the complete new content" % len(data)
         if ext == "pdf":
